@@ -250,9 +250,13 @@ def address (index : Int) : DrvM Bytes := do
 /-- `open_tx_pipe(address)` -/
 def openTxPipe (addr : Bytes) : DrvM Unit := do
   let d ← getD
-  if d.pipe0ReadAddr ≠ some addr ∧ d.aa &&& 1 ≠ 0 then
+  if d.aa &&& 1 ≠ 0 then
     assignPrefix 0 addr
     regWriteBytes RX_ADDR_P0 addr
+    let d ← getD
+    if d.config &&& 1 = 0 ∧ d.openPipes &&& 1 = 0 then
+      modD fun d => { d with openPipes := d.openPipes ||| 1 }
+      regWrite OPEN_PIPES (← getD).openPipes
   let d ← getD
   match overwritePrefix d.txAddress addr with
   | .ok b => modD fun d => { d with txAddress := b }
@@ -626,9 +630,10 @@ def POLL_FUEL : Nat := 8
 def resend (sendOnly : Bool := false) : DrvM SendRes := do
   if (← fifo true (some true)) ≠ 0 then return .bool false
   setCE false
-  if !sendOnly ∧ ((← getD).status >>> 1) < 6 then flushRx
+  if !sendOnly ∧ rxPipeField (← getD) < 6 then flushRx
   clearStatusFlags
   setCE true
+  let _ ← update
   pollFlags POLL_FUEL
   let result := (← getD).status &&& 0x20 ≠ 0
   if result ∧ (← getD).status &&& 0x40 ≠ 0 ∧ !sendOnly then
@@ -657,9 +662,15 @@ def send (buf : Bytes) (mutableBuf : Bool) (askNoAck : Bool := false) (forceRetr
   pollFlags POLL_FUEL
   let result := (← getD).status &&& 0x20 ≠ 0
   let res ← forceRetryLoop sendOnly (forceRetry.natAbs + 1) forceRetry (.bool result)
-  if (← getD).status &&& 0x60 = 0x60 ∧ !sendOnly then
+  if res = .bool true ∧ (← getD).status &&& 0x60 = 0x60 ∧ !sendOnly then
     return (.payload (← read), caller)
   return (res, caller)
+
+/-- `send([b1, b2, …], …)`: one result per payload, in order -/
+def sendList (bufs : List (Bool × Bytes)) (askNoAck : Bool) (forceRetry : Int) (sendOnly : Bool) :
+    DrvM (List (SendRes × Bytes)) := do
+  setCE false
+  bufs.mapM fun (m, b) => send b m askNoAck forceRetry sendOnly
 
 def startCarrierWave : DrvM Unit := do
   setPower false
